@@ -21,6 +21,8 @@ type World struct {
 	Loop    *s2.Loop
 	Other   *s2.Loop
 	Polygon *s2.Polygon
+	Many    *s2.Polygon    // 13+ disjoint loops: the polygon keeps a per-loop edge-offset table
+	ManyIx  *s2.ShapeIndex // an index holding Many as a shape
 	Index   *s2.ShapeIndex
 	Target  *s2.ShapeIndex
 	Probes  []s2.Point
@@ -38,7 +40,7 @@ func (sp Spec) String() string {
 }
 
 func RandSpec(rng *vkit.Rng) Spec {
-	return Spec{Lat: rng.Range(-40, 40), Lng: rng.Range(-60, 60), R: rng.Range(3, 20), N: []int{40, 100, 200}[rng.Intn(3)], Built: rng.Intn(4) == 0}
+	return Spec{Lat: rng.Range(-40, 40), Lng: rng.Range(-60, 60), R: rng.Range(3, 20), N: []int{40, 100, 200}[rng.Intn(3)], Built: rng.Intn(2) == 0}
 }
 
 func Make(sp Spec) *World {
@@ -49,6 +51,13 @@ func Make(sp Spec) *World {
 	w.Polygon = s2.PolygonFromLoops([]*s2.Loop{
 		s2.RegularLoop(c, s1.Angle(sp.R)*s1.Degree, sp.N),
 		s2.RegularLoop(c, s1.Angle(0.4*sp.R)*s1.Degree, 36)})
+	var many []*s2.Loop
+	for i := 0; i < 13+sp.N%7; i++ {
+		many = append(many, s2.RegularLoop(ll(sp.Lat-20+8*float64(i/5), sp.Lng-20+8*float64(i%5)), s1.Angle(1+float64(i%4)*0.6)*s1.Degree, 3+(i*5)%11))
+	}
+	w.Many = s2.PolygonFromLoops(many)
+	w.ManyIx = s2.NewShapeIndex()
+	w.ManyIx.Add(w.Many)
 	w.Index = s2.NewShapeIndex()
 	w.Index.Add(s2.RegularLoop(c, s1.Angle(sp.R)*s1.Degree, sp.N))
 	w.Index.Add(s2.RegularLoop(ll(sp.Lat-1.5*sp.R, sp.Lng+sp.R), s1.Angle(0.5*sp.R)*s1.Degree, 50))
@@ -69,6 +78,8 @@ func Make(sp Spec) *World {
 		s2.VerifC13LoopIndex(w.Loop).Build()
 		s2.VerifC13LoopIndex(w.Other).Build()
 		s2.VerifC13PolygonIndex(w.Polygon).Build()
+		s2.VerifC13PolygonIndex(w.Many).Build()
+		w.ManyIx.Build()
 		w.Index.Build()
 		w.Target.Build()
 	}
@@ -76,7 +87,7 @@ func Make(sp Spec) *World {
 }
 
 // NumTasks is the number of different read-only workloads.
-const NumTasks = 9
+const NumTasks = 13
 
 // Task runs workload k (with per-goroutine query objects) and returns its answers.
 func (w *World) Task(k, g int) string {
@@ -114,6 +125,33 @@ func (w *World) Task(k, g int) string {
 	case 7:
 		eq := s2.NewClosestEdgeQuery(w.Index, nil)
 		return fmt.Sprint("EdgeQuery.IsDistanceLess(index target) ", eq.IsDistanceLess(s2.NewMinDistanceToShapeIndexTarget(w.Target), s1.ChordAngleFromAngle(s1.Angle(float64(1+g%40))*s1.Degree)))
+	case 9: // the Shape view of a shared many-loop polygon
+		h := uint64(0)
+		n := w.Many.NumEdges()
+		for i := 0; i < n; i++ {
+			e := (i*7 + g*13) % n
+			ed := w.Many.Edge(e)
+			cp := w.Many.ChainPosition(e)
+			h = h*1099511628211 ^ math.Float64bits(ed.V0.X) ^ math.Float64bits(ed.V1.Y)<<1 ^ uint64(cp.ChainID*1000+cp.Offset)
+		}
+		return fmt.Sprintf("Polygon.Edge/ChainPosition(many loops) %x", h)
+	case 10:
+		mp := ll(w.Many.Loop(g%w.Many.NumLoops()).Vertex(0).Y*0+float64(g%5), float64(g%7)) // a few fixed points
+		c0 := w.Many.Loop(g % w.Many.NumLoops()).Vertex(0)
+		return fmt.Sprint("Polygon.ContainsPoint(many loops) ", w.Many.ContainsPoint(p), w.Many.ContainsPoint(mp), w.Many.ContainsPoint(c0))
+	case 11:
+		cq := s2.NewContainsPointQuery(w.ManyIx, s2.VertexModelSemiOpen)
+		xq := s2.NewCrossingEdgeQuery(w.ManyIx)
+		a := w.Many.Loop(g % w.Many.NumLoops()).Vertex(0)
+		b := w.Many.Loop((g + 3) % w.Many.NumLoops()).Vertex(1)
+		return fmt.Sprint("ContainsPointQuery/CrossingEdgeQuery(many loops) ", cq.Contains(p), cq.Contains(a), len(xq.Crossings(a, b, w.Many, s2.CrossingTypeAll)))
+	case 12:
+		eq := s2.NewClosestEdgeQuery(w.ManyIx, s2.NewClosestEdgeQueryOptions().IncludeInteriors(false).MaxResults(4))
+		s := "ClosestEdgeQuery(many loops)"
+		for _, r := range eq.FindEdges(s2.NewMinDistanceToPointTarget(p)) {
+			s += fmt.Sprintf(" %x/%d", math.Float64bits(float64(r.Distance())), r.EdgeID())
+		}
+		return s
 	default:
 		fq := s2.NewFurthestEdgeQuery(w.Index, s2.NewFurthestEdgeQueryOptions().IncludeInteriors(false))
 		d := fq.Distance(s2.NewMaxDistanceToPointTarget(p))
@@ -191,7 +229,7 @@ func Rounds(rng *vkit.Rng, n int) (fails []Failure, evals int, classes map[strin
 	for i := 0; i < n; i++ {
 		sp := RandSpec(rng)
 		G := 8 + rng.Intn(25)
-		mode := rng.Intn(3)
+		mode := rng.Intn(4)
 		base := rng.Intn(NumTasks)
 		taskOf := func(g int) int {
 			switch mode {
@@ -199,6 +237,8 @@ func Rounds(rng *vkit.Rng, n int) (fails []Failure, evals int, classes map[strin
 				return base // everyone hammers the same entry point
 			case 1:
 				return base + g%2*3
+			case 3:
+				return 9 + g%4 // everyone on the shared many-loop polygon
 			}
 			return g
 		}
